@@ -157,6 +157,24 @@ func runFlattenCampaign(tier string, seed int64) (*flattenCampaign, error) {
 	if tier == "thorough" {
 		to = 60 * time.Minute
 	}
+	// L2: the constructive pipeline model, explored exhaustively over the pointer-free / collision-free scenario sub-family
+	tk := `{"local", "aux1", "mutual"}`
+	hk := `{"prop", "allof", "opbody", "nested", "sharedresp", "auxresp"}`
+	h2k := `{"none", "code"}`
+	if tier == "thorough" {
+		h2k = `{"none", "code", "prop2", "same"}`
+		tk = `{"local", "aux1", "aux2", "aux3", "trans", "selfrec", "mutual", "arrayself", "mapself", "auxarrayself", "diamond"}`
+		hk = `{"prop", "items", "tuple", "addprops", "additems", "allof", "alias", "opbody", "pathbody", "code", "default", "sharedparam", "sharedresp", "nested", "opnested", "opitems", "auxresp", "auxparam", "auxpathitem", "unusedparam", "unusedresp", "casesiblings"}`
+	}
+	mc, _, mcErr := runMC("MC_Flatten", map[string]string{"TKinds": tk, "HKinds": hk, "H2Kinds": h2k}, 40*time.Minute, nWorkers())
+	lastMC["flattenPipeline"] = mc
+	if mcErr != nil || mc == nil || !mc.OK {
+		t := ""
+		if mc != nil {
+			t = "invariant " + mc.InvViolated + "\n" + mc.Tail
+		}
+		fc.errs = append(fc.errs, fmt.Sprintf("MC_Flatten (pipeline model) failed: %v %s", mcErr, t))
+	}
 	fc.tlc, err = RunTraceValidation(scratch, "Trace_Flatten", recs, to)
 	return fc, err
 }
@@ -292,6 +310,12 @@ func checkFlattenOne(prop, tier string, seed int64) int {
 			what = "[opts " + run.args.Opts.String() + "] " + what
 		}
 		rep.AddViolation(Violation{Prop: prop, Tid: run.tid, Sig: sig, What: what, Replay: replay})
+	}
+	if mc := lastMC["flattenPipeline"]; mc != nil && mc.OK {
+		rep.States += mc.Distinct
+		rep.Transitions += mc.Generated
+		rep.Extra["pipeline_model_run"] = map[string]any{"module": "MC_Flatten", "distinct_states": mc.Distinct, "states_generated": mc.Generated, "wall_s": mc.WallS,
+			"constants": mc.Constants, "invariants": []string{"InvC01Inductive", "InvC01", "InvC02", "InvC03", "InvC05", "InvC06", "InvC08", "InvIsPipeline", "InvLemmas"}}
 	}
 	// step-level conformance (L2): how many recorded runs are fully explained by the constructive operators of Flatten.tla
 	conform, drift := 0, map[string]int{}
